@@ -13,7 +13,7 @@ from ._pairs import compare_all, table_state_keys, V
 
 PID = "C15"
 LEVEL = "model_checking"
-WITNESSES = ["permuted_columns", "extra_column", "reindexed", "extra_rows", "thermal_crop", "combined_transformations", "season_calendar_checked_by_name", "nights_below_base_temperature"]
+WITNESSES = ["permuted_columns", "extra_column", "reindexed", "extra_rows", "thermal_crop", "combined_transformations", "season_calendar_checked_by_name", "nights_below_base_temperature", "weather_matrix_checked_by_date", "same_dates_other_row_offset"]
 NONTRIVIAL = WITNESSES
 
 COLS = ["MinTemp", "MaxTemp", "Precipitation", "ReferenceET", "Date"]
@@ -60,7 +60,7 @@ def scenarios(tier, seed=0):
 
 def byname_scenarios(tier):
     for meth in (1, 2, 3):
-        for word in ("coolnights", "hot"):
+        for word in ("coolnights", "hot", "mix"):
             for perm in ([0, 1, 2, 3, 4], [1, 0, 3, 2, 4], [4, 3, 2, 1, 0]):
                 yield {"kind": "byname", "method": meth, "word": word, "perm": perm, "extra": "front", "index": "shift1000", "rows": "lead400"}
 
@@ -104,6 +104,49 @@ def run_byname(scn):
         res["witness"]["season_calendar_checked_by_name"] = res["witness"].get("season_calendar_checked_by_name", 0) + 1
         if (sub["MinTemp"].values < float(c.Tbase)).any():
             res["witness"]["nights_below_base_temperature"] = 1
+    # the model's own weather matrix still holds, for every date of the window, the record carrying that date (by name)
+    W = np.asarray(m._weather)
+    want = by_date.loc[pd.Timestamp(ck.simulation_start_date): pd.Timestamp(ck.simulation_end_date)]
+    if len(W) == len(want):
+        for j, name in enumerate(("MinTemp", "MaxTemp", "Precipitation", "ReferenceET")):
+            got = np.array(W[:, j], dtype=float)
+            ne = np.where(got != want[name].values.astype(float))[0]
+            if len(ne):
+                r = int(ne[0])
+                res["violations"].append(V("day-uses-the-record-of-its-date", r, {"variable": name, "used": float(got[r])}, {"record of " + str(want.index[r].date()): float(want[name].values[r])},
+                                           method=scn["method"], sig=["byname-matrix", name]))
+                break
+        res["witness"]["weather_matrix_checked_by_date"] = 1
+    else:
+        res["violations"].append(V("day-uses-the-record-of-its-date", None, {"rows": int(len(W))}, {"days in the window": int(len(want))}, method=scn["method"], sig=["byname-matrix-rows"]))
+    # the same dates at another row offset of the run: the last season, started on its own planting date, gives the same days
+    # (off-season not simulated, so the seasons are independent: C08)
+    from ..driver import GX as _GX
+    last = int(ck.n_seasons) - 1
+    if last >= 1:
+        spec1 = copy.deepcopy(spec)
+        spec1["start"] = pd.Timestamp(ck.planting_dates[last]).strftime("%Y/%m/%d")
+        ent1 = S.make_entities(spec1)
+        ent1["weather_df"] = df.copy()
+        t1, a1, m1 = run_plain(spec1, entities=ent1)
+        res["evals"] += 1
+        if a1:
+            res["violations"].append(V("equivalent-weather-table-raises", None, {"exc": a1.get("exc_type"), "origin": a1.get("exc_origin")}, "runs", sig=["raise-offset", a1.get("exc_origin")]))
+        else:
+            ga, gb = t["growth"], t1["growth"]
+            ra = np.where((ga[:, _GX["season_counter"]] == last) & (ga[:, _GX["dap"]] > 0))[0]
+            rb = np.where((gb[:, _GX["season_counter"]] == 0) & (gb[:, _GX["dap"]] > 0))[0]
+            res["witness"]["same_dates_other_row_offset"] = 1
+            if len(ra) != len(rb):
+                res["violations"].append(V("same-dates-same-results-at-another-row-offset", None, {"long_run_days": int(len(ra)), "short_run_days": int(len(rb))}, "equal", method=scn["method"], sig=["offset-len"]))
+            else:
+                x, y = np.nan_to_num(ga[ra][:, 2:]).copy(), np.nan_to_num(gb[rb][:, 2:]).copy()
+                ne = np.argwhere(x.view(np.uint64) != y.view(np.uint64))
+                if len(ne):
+                    r, c = int(ne[0][0]), int(ne[0][1]) + 2
+                    from ..driver import GROWTH_COLS
+                    res["violations"].append(V("same-dates-same-results-at-another-row-offset", int(ra[r]), {"col": GROWTH_COLS[c], "day_of_season": r + 1, "long_run": float(ga[ra[r], c]), "run_started_at_that_season": float(gb[rb[r], c])},
+                                               "bitwise equal", method=scn["method"], sig=["offset", GROWTH_COLS[c]]))
     # the daily degree days of the time step, too
     gd = t["growth"]
     from ..driver import GX
@@ -214,7 +257,7 @@ def describe(tier):
         "rule": "ALL 120 permutations of the five required columns; unrelated extra columns at the front / middle / end, and one with NaN gaps; index {RangeIndex, shifted by 1000, reversed labels, "
                 "string labels, Date index}; 400 extra leading / trailing rows / both, also with a gap of missing days, a duplicated row or dropped-but-not-re-indexed rows outside the window; " + ("each factor alone against the identity plus three combined cases" if tier == "quick" else "the FULL product (120 x 5 x 5 x 8 = 24000 tables per crop; every 12th permutation for the two extra crop kinds)")
                 + "; x {calendar-day crop with threshold irrigation; thermal-time crop started before / on its planting date; calendar crop converted to thermal time (SwitchGDD=1)} over 2 seasons. "
-                "Oracle: all four tables bitwise equal to the run fed with the canonical table; plus a by-name oracle: for a thermal crop under degree-day methods 1-3 and a word with nights below the base temperature, the thermal calendar of EVERY season and the daily degree days must equal a reference computed from the columns named MinTemp/MaxTemp on the dates concerned.",
+                "Oracle: all four tables bitwise equal to the run fed with the canonical table; plus a by-name oracle: for a thermal crop under degree-day methods 1-3 and a word with nights below the base temperature, the thermal calendar of EVERY season and the daily degree days must equal a reference computed from the columns named MinTemp/MaxTemp on the dates concerned; after the run the model's weather matrix must still hold, row by row, the record carrying that row's date; and the last of three seasons must be bitwise equal to a run of the same table started on that season's planting date (same dates at another row offset).",
         "bound": "120 permutations complete; " + ("factors alone" if tier == "quick" else "full product 120 x 5 x 5 x 8") + " x 2 crops",
         "exhaustive": True,
         "witnesses": WITNESSES,
